@@ -812,7 +812,8 @@ Proof.
   repeat (projs; match goal with
     | |- context [match ?x with _ => _ end] => destruct x eqn:?
     end); projs; try discriminate; try reflexivity; intros H; exfalso; revert H;
-  first [apply goto_top_ni | apply hbc_ni | apply wait_exit_ni | apply apply_q_ni ].
+  first [apply goto_top_ni | apply hbc_ni | apply wait_exit_ni | apply apply_q_ni
+        | intros; congruence ].
 Qed.
 
 (* ------------------------------------------------------ the invariant *)
@@ -1022,17 +1023,22 @@ Proof.
       eapply Inv_frame; try exact I; try reflexivity. projs. intros X; contradiction. }
     destruct (pc s) eqn:Epc; try (apply G; discriminate);
       try (rewrite Ho; split; [exact I | split; intros; reflexivity]).
-    assert (T : tcur s) by (pose proof (i_pc _ I) as X; unfold pc_inv in X; rewrite Epc in X; exact X).
-    pose proof (recv_update_ok (told s) u USelect s M T) as P.
-    split; [|split; [intros _; apply P | intros X; discriminate]].
-    eapply thread_inv; [exact I | apply recv_update_env | rewrite recv_update_sub; exact Sok | exact P |].
-    intros X. exfalso. revert X. apply recv_update_ni.
+    + assert (T : tcur s) by (pose proof (i_pc _ I) as X; unfold pc_inv in X; rewrite Epc in X; exact X).
+      pose proof (recv_update_ok (told s) u USelect s M T) as P.
+      split; [|split; [intros _; apply P | intros X; discriminate]].
+      eapply thread_inv; [exact I | apply recv_update_env | rewrite recv_update_sub; exact Sok | exact P |].
+      intros X. exfalso. revert X. apply recv_update_ni.
+    + assert (T : tcur s) by (pose proof (i_pc _ I) as X; unfold pc_inv in X; rewrite Epc in X; exact X).
+      pose proof (recv_wait_ok (told s) ph u s M T) as P.
+      split; [|split; [intros _; apply P | intros X; discriminate]].
+      eapply thread_inv; [exact I | apply recv_wait_env | rewrite recv_wait_sub; exact Sok | exact P |].
+      intros X. exfalso. revert X. apply recv_wait_ni.
   - (* call returns *)
     cbn [do_ev] in *.
     pose proof (do_call_post r s (i_env _ I) M (i_pc _ I)) as P.
     split; [|split].
     + eapply thread_inv; [exact I | apply do_call_env | | exact P | ].
-      * intros q n Hq Hin. destruct (do_call_sub r s) as [E|[E|(q0 & Hb & E)]]; rewrite E in Hq.
+      * intros q n Hq Hin. destruct (do_call_sub r s) as [E|[E|(k0 & q0 & Hb & E)]]; rewrite E in Hq.
         -- eapply Sok; eauto.
         -- discriminate.
         -- inversion Hq; subst. eapply backlog_ok; eauto. apply I.
@@ -1044,8 +1050,9 @@ Proof.
     pose proof (do_ntfn_post s (i_env _ I) (i_sub _ I) M (i_pc _ I)) as P.
     split; [|split].
     + eapply thread_inv; [exact I | apply do_ntfn_env | | exact P | ].
-      * intros q n Hq Hin. destruct (do_ntfn_sub s) as [E|(n0 & q0 & E0 & E)]; rewrite E in Hq.
+      * intros q n Hq Hin. destruct (do_ntfn_sub s) as [E|[E|(n0 & q0 & E0 & E)]]; rewrite E in Hq.
         -- eapply Sok; eauto.
+        -- discriminate.
         -- inversion Hq; subst. eapply Sok; [exact E0 | right; exact Hin].
       * intros Hp. pose proof (do_ntfn_idle _ Hp) as E. rewrite E in *. apply (i_idle _ I Hp).
     + intros _. apply P.
@@ -1062,6 +1069,24 @@ Proof.
     + destruct (retry_loop_env (set_armed false s)) as (E1 & E2 & E3). repeat split; auto.
     + rewrite retry_loop_sub. exact Sok.
     + intros X. exfalso. revert X. apply retry_loop_ni.
+  - (* IsCurrent changes *)
+    cbn [do_ev] in *. projs. rewrite Ho. split; [|split; intros; reflexivity].
+    eapply Inv_frame; try exact I; try reflexivity. apply I.
+  - (* quit *)
+    cbn [do_ev] in *.
+    assert (G : Inv (set_quitf true s) /\
+      (pc s <> PIdle -> walk_from (told s) (outq (set_quitf true s)) = Some (told (set_quitf true s))) /\
+      (pc s = PIdle -> outq (set_quitf true s) = [])).
+    { projs. rewrite Ho. split; [|split; intros; reflexivity].
+      eapply Inv_frame; try exact I; try reflexivity. apply I. }
+    assert (G2 : pc s <> PIdle -> Inv (set_pc PExit (set_quitf true s)) /\
+      (pc s <> PIdle -> walk_from (told s) (outq (set_pc PExit (set_quitf true s))) =
+                        Some (told (set_pc PExit (set_quitf true s)))) /\
+      (pc s = PIdle -> outq (set_pc PExit (set_quitf true s)) = [])).
+    { intros Hn. projs. rewrite Ho. split; [|split; intros; reflexivity].
+      eapply (thread_inv s _ (told s)); [exact I | repeat split | exact Sok | | projs; intros X; discriminate].
+      split; [mid_tac M | unfold pc_inv; projs; exact Logic.I]. }
+    destruct (pc s) eqn:Epc; try exact G; apply G2; discriminate.
 Qed.
 
 (* ------------------------------------------------- flags only ever rise *)
@@ -1085,11 +1110,14 @@ Proof.
   - destruct (pc s) eqn:E; congruence.
   - revert Hp. destruct (pend s); [auto|].
     destruct (pc s) eqn:E; projs; try congruence.
-    apply recv_update_ni.
+    + apply recv_update_ni.
+    + apply recv_wait_ni.
   - apply do_call_idle in Hp as E. rewrite E in Hp. auto.
   - apply do_ntfn_idle in Hp as E. rewrite E in Hp. auto.
   - revert Hp. destruct (pc s) eqn:E; try congruence.
     destruct (armed s); [apply retry_loop_ni | congruence].
+  - auto.
+  - revert Hp. destruct (pc s) eqn:E; projs; congruence.
 Qed.
 
 (* ------------------------------------------- the monitor follows the model *)
@@ -1142,11 +1170,9 @@ Proof.
 Qed.
 
 Lemma start_at_told : forall c h k s, pend s = None -> told (start_at c h k s) = (hid h, k).
-Proof.
-  intros c h k s Hp. unfold start_at, goto_top, settle. projs. rewrite Hp. blast; reflexivity.
-Qed.
+Proof. intros c h k s Hp. unfold start_at. projs. reflexivity. Qed.
 Lemma start_at_ni : forall c h k s, pc (start_at c h k s) <> PIdle.
-Proof. intros. unfold start_at. apply goto_top_ni. Qed.
+Proof. intros. unfold start_at. projs. discriminate. Qed.
 
 Lemma mon_recv_told : forall m r, mtold (mon_recv m r) = mtold m /\ mchain (mon_recv m r) = mchain m.
 Proof. intros m r. unfold mon_recv. destruct r; [destruct (mpend m)|]; cbn; auto. Qed.
@@ -1163,11 +1189,14 @@ Proof.
     all: repeat match goal with |- context [match ?x with _ => _ end] => destruct x end; cbn;
       rewrite ?(proj1 (start_env c s)); exact R.
   - destruct (mtold m), (mpend m); cbn;
-    (destruct (pend s); [exact R|]; destruct (pc s); projs; rewrite ?(proj1 (recv_update_env _ _ _)); exact R).
+    (destruct (pend s); [exact R|]; destruct (pc s); projs;
+     rewrite ?(proj1 (recv_update_env _ _ _)), ?(proj1 (recv_wait_env _ _ _)); exact R).
   - rewrite (proj1 (do_call_env r s)). exact R.
   - rewrite (proj1 (do_ntfn_env s)). exact R.
   - destruct (pc s); try exact R. destruct (armed s); [|exact R].
     rewrite (proj1 (retry_loop_env _)). exact R.
+  - exact R.
+  - destruct (pc s); exact R.
 Qed.
 
 Lemma mon_cbs_chain : forall cbs m, mchain (fst (fst (mon_cbs m cbs))) = mchain m.
@@ -1198,6 +1227,8 @@ Proof.
   - destruct (pend s); [exact Hp|]. rewrite Hp. exact Hp.
   - unfold do_call. rewrite Hp. exact Hp.
   - unfold do_ntfn. rewrite Hp. exact Hp.
+  - rewrite Hp. exact Hp.
+  - exact Hp.
   - rewrite Hp. exact Hp.
 Qed.
 
@@ -1246,11 +1277,94 @@ Proof.
     unfold chain_rel in Rc. rewrite Rc. rewrite !find_height_map.
     pose proof (i_idle _ I0 Hp) as Hpend.
     change (chain s0) with (chain s) in *.
-    destruct (by_height (cstart c) (chain s)) as [h|]; cbn.
+    destruct (by_height (cstart c) (chain s)) as [h|]; cbn [option_map mtold fst snd].
     + split; [apply start_at_ni | rewrite start_at_told; auto].
-    + destruct (by_height 0 (chain s)) as [g|]; cbn.
+    + destruct (by_height 0 (chain s)) as [g|]; cbn [option_map mtold fst snd].
       * split; [apply start_at_ni | rewrite start_at_told; auto].
       * rewrite Em. exact Hp.
+Qed.
+
+(* ------------- the pass over the queue of waitForBlocks is never left half done *)
+(* outside a rewind started by that pass, nothing of the queue is left to apply *)
+Definition wr_inv (s : state) : Prop :=
+  match pc s with
+  | PRew _ (UWait _) | PDone | PDead | PExit => True
+  | _ => wrest s = []
+  end.
+
+Lemma wr_nil : forall s, wrest s = [] -> wr_inv s.
+Proof. intros s H. unfold wr_inv. destruct (pc s); auto. destruct c; auto. Qed.
+
+Lemma wr_frame : forall s s', pc s' = pc s -> wrest s' = wrest s -> wr_inv s -> wr_inv s'.
+Proof. unfold wr_inv; intros s s' E1 E2; rewrite E1, E2; auto. Qed.
+
+Lemma apply_q_wr : forall ph q s, wr_inv (apply_q ph q s).
+Proof.
+  induction q as [|u r IH]; intros s; cbn [apply_q].
+  - apply wr_nil. unfold enter_wait; projs; reflexivity.
+  - destruct (_ || _); [apply IH | unfold wr_inv; projs; exact I].
+Qed.
+Lemma wait_top_wr : forall ph s, wrest s = [] -> wr_inv (wait_top ph s).
+Proof.
+  intros ph s H. unfold wait_top. destruct (pend s).
+  - unfold recv_wait. apply apply_q_wr.
+  - apply wr_nil. unfold enter_wait; projs; exact H.
+Qed.
+Lemma wait_settle_wr : forall s, wr_inv s -> wr_inv (wait_settle s).
+Proof.
+  intros s H. unfold wait_settle. destruct (pc s) eqn:E; try exact H.
+  apply wait_top_wr. unfold wr_inv in H. rewrite E in H. exact H.
+Qed.
+Lemma wait_exit_wr : forall ph s, wr_inv (wait_exit ph s).
+Proof.
+  intros ph s. apply wr_nil. unfold wait_exit. destruct ph; [rewrite goto_top_wrest|]; projs; reflexivity.
+Qed.
+
+Lemma do_call_wr : forall r s, wr_inv s -> wr_inv (do_call r s).
+Proof.
+  intros r s H. unfold do_call. unfold wr_inv in H.
+  destruct (pc s) eqn:E; try (unfold wr_inv; rewrite E; exact H);
+    try (blast; first [ apply wr_nil; autorewrite with frame; projs; auto; fail
+                      | apply wait_exit_wr | apply wait_top_wr; projs; auto ]; fail).
+  (* PRew *)
+  destruct (by_id (hprev (cur s)) (chain s)) as [p|]; [|unfold wr_inv; projs; exact I].
+  destruct (target <? hh p).
+  - destruct c; first [ apply wr_nil; projs; exact H | unfold wr_inv; projs; exact I ].
+  - destruct c.
+    + apply wr_nil; autorewrite with frame; projs; exact H.
+    + apply wr_nil; autorewrite with frame; projs; exact H.
+    + apply wait_settle_wr, apply_q_wr.
+Qed.
+
+Lemma do_ntfn_wr : forall s, wr_inv s -> wr_inv (do_ntfn s).
+Proof.
+  intros s H. unfold do_ntfn. unfold wr_inv in H.
+  destruct (pc s) eqn:E; try (unfold wr_inv; rewrite E; exact H);
+  blast; first [ apply wr_nil; autorewrite with frame; projs; auto; fail
+               | apply wait_exit_wr | apply apply_q_wr
+               | unfold wr_inv; projs; rewrite E; exact H ].
+Qed.
+
+Lemma do_ev_wr : forall e s, wr_inv s -> wr_inv (do_ev e s).
+Proof.
+  intros e s H. destruct e; cbn [do_ev].
+  - unfold push_ntfn. blast; first [exact H | eapply wr_frame; [| |exact H]; reflexivity].
+  - unfold push_ntfn. blast; first [exact H | eapply wr_frame; [| |exact H]; reflexivity].
+  - destruct (pc s) eqn:E; try exact H. unfold start, start_at.
+    blast; first [exact H | apply wr_nil; projs; reflexivity].
+  - destruct (pend s); [exact H|].
+    unfold wr_inv in H.
+    destruct (pc s) eqn:E; try (unfold wr_inv; projs; rewrite E; exact H).
+    + apply wr_nil. rewrite recv_update_wrest. exact H.
+    + unfold recv_wait. apply apply_q_wr.
+  - apply do_call_wr; exact H.
+  - apply do_ntfn_wr; exact H.
+  - unfold wr_inv in H. destruct (pc s) eqn:E; try (unfold wr_inv; rewrite E; exact H).
+    destruct (armed s); [|unfold wr_inv; rewrite E; exact H].
+    apply wr_nil. rewrite retry_loop_wrest. projs. exact H.
+  - eapply wr_frame; [| |exact H]; reflexivity.
+  - destruct (pc s) eqn:E; first [ unfold wr_inv; projs; exact I
+                                 | eapply wr_frame; [| |exact H]; reflexivity ].
 Qed.
 
 Lemma run_flags : forall evs s,
